@@ -179,9 +179,13 @@ Proof.
   assert (H1 : confs s1 = confs s).
   { subst s1. destruct c; try reflexivity; apply skc_confs, update_gateway_services_skc. }
   clearbody s1.
-  set (s2 := match c with CDefaults true => _ | _ => s1 end) in He.
+  set (s2 := match c with CDefaults true => _ | CDefaults false => _ | _ => s1 end) in He.
   assert (H2 : confs s2 = confs s).
-  { subst s2. destruct c as [| |[]|]; try exact H1. cbv zeta. rewrite upsert_ksn_confs.
+  { subst s2. destruct c as [| |[]|]; try exact H1.
+    2:{ destruct (bool_decide _); [|exact H1]. cbv zeta. rewrite <- H1.
+        destruct (drop_destination_core name (if bool_decide (gateway_service_kind name s1 = GDestination) then GUnknown else gateway_service_kind name s1) s1)
+          as (_ & _ & _ & _ & Hc & _). exact Hc. }
+    cbv zeta. rewrite upsert_ksn_confs.
     rewrite <- H1. apply skc_confs.
     eapply same_skc_trans; [apply check_gateway_and_update_skc|apply check_gateway_wildcards_and_update_skc]. }
   clearbody s2.
